@@ -493,7 +493,10 @@ pub fn run_c33(batch: &str, tape: &mut Tape, rep: &mut Report) {
         let mut groups: Vec<String> = vec![];
         let mut gen = 0u64;
         for (k, e) in evs.iter().enumerate() {
-            let avail = |m: &BTreeMap<u64, MW>| -> Vec<u64> { m.iter().filter(|(_, w)| w.st == St::Ready && w.running < w.max).map(|(i, _)| *i).collect() };
+            // Availability = the reference table's status (what this property is about) and, for spare capacity, the
+            // coordinator's own running count: how full a worker is, is bookkeeping (C32's subject), not judged here.
+            let full: BTreeSet<u64> = { let c = coord.read().await; c.workers.iter().filter(|(_, w)| w.capacity.pipelines_running >= w.capacity.max_pipelines).filter_map(|(id, _)| id.0.trim_start_matches('w').parse().ok()).collect() };
+            let avail = |m: &BTreeMap<u64, MW>| -> Vec<u64> { m.iter().filter(|(i, w)| w.st == St::Ready && !full.contains(i)).map(|(i, _)| *i).collect() };
             match e.clone() {
                 Ev::Advance(ms) => {
                     tokio::time::advance(Duration::from_millis(ms)).await;
